@@ -8,13 +8,16 @@ oq = bind_repo()
 
 
 def build_pt(d, e, sigma, kraus_per_step, dt=None, rank3_us=None, basis_v=None, caps="explicit",
-             name=None, description=None, cls=None, cap_op=None, scribble=False):
+             name=None, description=None, cls=None, cap_op=None, scribble=False, basis_g=None):
     """kraus_per_step[k]: Kraus list on system (x) ancilla of step k (physical basis).
     rank3_us[k]: list of d unitaries U_t (controlled unitary in the *internal* basis) -> rank-3 tensors.
     basis_v: unitary V on the system; the PT is stored in the internal basis (rho_int = V^dag rho V) with
              transform_in/out, the physical maps being (V x 1) K_int (V^dag x 1).
     caps: 'explicit' -> set_cap_tensor for all steps; 'computed' -> last future bond closed with the trace
           vector and pt.compute_caps().
+    basis_g: invertible d^2 x d^2 matrix G (NOT a unitary conjugation in general): the process tensor is stored in the
+          operator basis vec_int = G^-1 vec with transform_in = (G^-1)^T, transform_out = G^T; the physical maps stay
+          those of kraus_per_step / rank3_us (so a general G makes the stored tensors rank 4).  Excludes basis_v.
     scribble: hand every tensor over in a work buffer that is re-used for the next step of the same shape, and overwrite
           all buffers with garbage once the process tensor is built (a caller that keeps no reference to its arrays)."""
     n = len(kraus_per_step) if kraus_per_step is not None else len(rank3_us)
@@ -24,6 +27,13 @@ def build_pt(d, e, sigma, kraus_per_step, dt=None, rank3_us=None, basis_v=None, 
         # internal vector = T_in^T vec  =>  T_in^T = S_V^dagger ; T_out^T = S_V
         t_in = s_v.conj()
         t_out = s_v.T
+    g_mat = g_inv = None
+    if basis_g is not None:
+        assert basis_v is None
+        g_mat = np.asarray(basis_g, dtype=complex)
+        g_inv = np.linalg.inv(g_mat)
+        t_in = g_inv.T.copy()
+        t_out = g_mat.T.copy()
     from oqupy.process_tensor import SimpleProcessTensor
     cls = cls or SimpleProcessTensor
     pt = cls(hilbert_space_dimension=d, dt=dt, transform_in=t_in, transform_out=t_out,
@@ -39,6 +49,14 @@ def build_pt(d, e, sigma, kraus_per_step, dt=None, rank3_us=None, basis_v=None, 
             m = R.mpo3_from_controlled(rank3_us[k], e)
         else:
             m = R.mpo_from_kraus(kraus_per_step[k], d, e)
+        if g_mat is not None:
+            if m.ndim == 3:      # delta-expand, the transformed tensor is no longer diagonal in the system legs
+                full = np.zeros(m.shape + (m.shape[2],), dtype=complex)
+                for i in range(m.shape[2]):
+                    full[:, :, i, i] = m[:, :, i]
+                m = full
+            # M_int[a,b,i,o] = sum_{in,out} G[in,i] M_phys[a,b,in,out] G^-1[o,out]
+            m = np.einsum("pi,abpq,oq->abio", g_mat, m, g_inv)
         if k == 0:
             m = np.tensordot(sig, m, axes=([0], [0]))[None]
         if caps == "computed" and k == n - 1:
